@@ -123,6 +123,9 @@ Mutants(v) ==
         ELSE {})
   \cup { <<"bal_plus", [v EXCEPT !.bals[a][j] = @ + 1]>> : a \in 1..NAssets, j \in 1..NP }
   \cup { <<"bal_minus", [v EXCEPT !.bals[a][j] = @ - 1]>> : a \in 1..NAssets, j \in 1..NP }
+  \* two participants get two units each: with amounts written in units of 2^62 (second pass of the driver) the total
+  \* grows by exactly 2^64 while every single balance may still fit a machine word
+  \cup { <<"bal_plus22", [v EXCEPT !.bals[a][1] = @ + 2, !.bals[a][2] = @ + 2]>> : a \in 1..NAssets }
   \cup { <<"negative", [v EXCEPT !.bals[a] = [j \in 1..NP |-> IF j = 1 THEN -1 ELSE IF j = 2 THEN v.bals[a][1] + v.bals[a][2] + 1 ELSE v.bals[a][j]]]>> :
             a \in 1..NAssets }
   \cup { <<"cols_minus", [v EXCEPT !.bals = [a \in 1..NAssets |->
